@@ -145,6 +145,9 @@ impl Table {
                 )?;
             }
         }
+        // Flush explicitly: a buffered stream that is merely dropped discards
+        // any error from writing out its buffer.
+        writer.flush()?;
         Ok(())
     }
 }
